@@ -1,7 +1,7 @@
 CONSTANTS
   AlphaOf <- FullAlpha
   MaxLenOf <- Len5
-  DelimSet <- AllDelims
+  DelimSet <- FullDelims
 INIT Init
 NEXT Next
 INVARIANTS EmitTok
